@@ -9,6 +9,7 @@ NET = "acnportal.acnsim.network.charging_network.ChargingNetwork."
 AE = "acnportal.acnsim.events.acndata_events."
 EVT = "acnportal.acnsim.events.event."
 EQ = "acnportal.acnsim.events.event_queue.EventQueue."
+SN = "acnportal.contrib.acnsim.network.stochastic_network.StochasticNetwork."
 
 TRUSTED_COMMON = [
     "A-REAL: Python float / numpy float64 arithmetic is treated as exact real arithmetic; int is unbounded",
@@ -26,7 +27,7 @@ BATTERY_FNS = [B + "Battery.__init__", B + "Battery.charge", B + "Battery.reset"
                B + "Linear2StageBattery._charge", B + "Linear2StageBattery._charge_stepwise"]
 SET_PILOT = [S + "BaseEVSE.set_pilot@EVSE", S + "BaseEVSE.set_pilot@DeadbandEVSE", S + "BaseEVSE.set_pilot@FiniteRatesEVSE"]
 
-SHARDS = {SIM + "_update_schedules": 8, SIM + "_store_actual_charging_rates": 4, B + "batt_cap_fn": 8, AE + "_convert_to_ev": 4, SIM + "run": 16, SIM + "_process_event": 4, EQ + "get_current_events": 8, EQ + "add_events": 3, EQ + "__init__": 3, B + "Linear2StageBattery._charge": 6, B + "Linear2StageBattery._charge_stepwise": 2}
+SHARDS = {SN + "unplug": 6, SN + "post_charging_update": 4, SN + "plugin": 3, SIM + "_update_schedules": 8, SIM + "_store_actual_charging_rates": 4, B + "batt_cap_fn": 8, AE + "_convert_to_ev": 4, SIM + "run": 16, SIM + "_process_event": 4, EQ + "get_current_events": 8, EQ + "add_events": 3, EQ + "__init__": 3, B + "Linear2StageBattery._charge": 6, B + "Linear2StageBattery._charge_stepwise": 2}
 
 EVSE_FNS = [S + x for x in (
     "BaseEVSE.__init__", "EVSE.__init__", "DeadbandEVSE.__init__", "FiniteRatesEVSE.__init__",
@@ -307,17 +308,29 @@ PLAN = {
     ),
     "C19": dict(
         level="other",
+        functions=[SN + "plugin", SN + "unplug", SN + "available_evses", SN + "post_charging_update"],
         bounded=[dict(module="rt.fnmon", fn="stochastic_monitor", label="operation sequences on StochasticNetwork against the FCFS model"),
                  dict(module="rt.drivers", fn="stochastic_sim_monitor", label="whole simulations on a StochasticNetwork")],
-        text="BOUNDED so far: run-time contracts on the real StochasticNetwork - after every plugin / unplug / stale unplug / "
-             "post_charging_update of seeded operation sequences the representation invariant (each arrived EV in exactly one place, no "
-             "station with two EVs, nobody waits while a station is free, occupant.station_id = station, waiting.station_id = None) is "
-             "evaluated, the waiting queue is compared with the first-come-first-served model, the free station taken by random.choice is read "
-             "back and must have been free, counters are compared; whole simulations with more simultaneous sessions than stations must end "
-             "with every session gone and be reproducible under a fixed seed.",
-        note="no obligation is proved for C19 yet; bounded by the sequence / scenario space written in the evidence",
-        explanation="bounded run-time contract monitors only (rt.fnmon.stochastic_monitor, rt.drivers.stochastic_sim_monitor)",
-        technique="run-time contract monitor on the real functions (bounded stand-in); deductive obligations pending",
+        text="PROVED (all registries, occupancies, waiting queues, every random choice of a free station; by induction over calls, no bound): the "
+             "representation invariant - registry well-formed; every waiting EV is a live object filed under its own session id with no station; every "
+             "occupant knows the station it is connected to (hence no EV at two stations and none both waiting and connected; a station holds one EV by "
+             "construction); nobody waits while a station is free - is preserved by plugin, unplug and post_charging_update (loop invariant). plugin: the "
+             "arriving EV is connected to a station that was free if and only if one exists (whichever random.choice picks), all other stations and the "
+             "queue unchanged; otherwise it is appended at the END of the waiting queue, everything else unchanged. unplug: a waiting EV leaves the queue, "
+             "is counted as never charged and the others keep their order; a matching departure frees the station when nobody waits, otherwise admits "
+             "exactly the FIRST-come waiting EV to that station (swap counted, rest of the queue in order); a stale unplug changes nothing; KeyError / "
+             "ValueError exactly for an unknown station / missing session id, state unchanged. post_charging_update never raises, keeps the invariant and "
+             "changes nothing without early_departure or when nobody waits. BOUNDED: 'every session is gone by the end of the run', reproducibility under a "
+             "seed and the early-departure accounting over whole simulations.",
+        note="random.choice(seq) is an arbitrary element of seq (A-LIB, every seed covered); OrderedDict operations (item assignment, move_to_end, "
+             "popitem(last=False), del) per A-LIB with well-formedness of a dict value as a type invariant; precondition of plugin: the arriving EV is not "
+             "already in the network (a session is plugged in once - C01); the constructor is not under contract (numpy info store)",
+        explanation="proved: representation invariant preserved + functional postconditions of plugin / unplug / available_evses / post_charging_update (pyvc); "
+                    "bounded: whole-run clauses (rt.fnmon.stochastic_monitor, rt.drivers.stochastic_sim_monitor)",
+        technique="contract-based deductive verification of a data-structure invariant over an ordered-map abstraction (pyvc/z3) + run-time contract monitor (bounded) for whole runs",
+        trusted=["A-LIB: random.choice returns some element of a non-empty sequence; OrderedDict: d[k]=v appends a new key / keeps an existing key's place, "
+                 "move_to_end moves the key to the end, popitem(last=False) removes the first key, del removes the key keeping the order of the others; "
+                 "a dict value is always well-formed (key list = domain, no repetition)"],
     ),
     "C13": dict(
         level="proof",
